@@ -127,6 +127,13 @@ func (ctx *Context) applyAtRecursively(pos int) int {
 		}
 		pos := ctx.stack[k].InputPos[seqIdx]
 		end := ctx.stack[k].EndPos
+		if end > len(ctx.seq) {
+			// Earlier actions of this rule have shortened the sequence.
+			end = len(ctx.seq)
+		}
+		if pos >= end {
+			continue
+		}
 
 		if int(lookupIndex) >= len(ctx.ll) {
 			continue
